@@ -529,8 +529,10 @@ RECUR_DISPOSITIONS = {
 PROPERTIES["C08"]["rules"] += [("RECUR", lambda ctx: rule_recur(ctx.lib, RECUR_DISPOSITIONS))]
 PROPERTIES["C08"]["explanation"] += " (RECUR) Strongly connected components of the MIR call graph reachable from interpret_with_settings that recurse over the token stream or a syntax/type/unit structure are listed; none has a depth guard. Two have witness inputs (known findings: the process aborts with a stack overflow), the rest are reported as unresolved advisories because an earlier phase overflows first."
 
+from travenv import rule_trav_env  # noqa: E402
+
 for _pid in ("C02", "C01"):
-    PROPERTIES[_pid]["rules"] += [("TRAV.apply_substitution_env", trav("apply_substitution_env"))]
+    PROPERTIES[_pid]["rules"] += [("TRAV.apply_substitution_env", lambda ctx: rule_trav_env(ctx.lib, FAMILIES["apply_substitution_env"]))]
     PROPERTIES[_pid]["explanation"] += " (TRAV.apply_substitution_env) The solved substitution is applied to the type recorded for every kind of identifier in the checker's environment (variables, functions, the predefined ans/_), so no identifier keeps an unsolved type variable that generalisation would turn into `forall A. A`."
 
 from shift import rule_shift  # noqa: E402
@@ -560,6 +562,15 @@ from perinput import rule_perinput  # noqa: E402
 
 PROPERTIES["C07"]["rules"] += [("PERINPUT", lambda ctx: rule_perinput(ctx.lib))]
 PROPERTIES["C07"]["explanation"] += " (PERINPUT) Necessary condition of 'incremental and batched evaluation agree': the per-input epilogue after Vm::run (BytecodeInterpreter::run / interpret_statements) assigns no interpreter field and calls only methods with an empty modification set, so everything later statements read (ans, variables) is written per statement by the bytecode itself."
+
+PROPERTIES["C01"]["rules"] += [("SYM.cmp", lambda ctx: rule_sym_cmp(ctx.lib))]
+PROPERTIES["C01"]["explanation"] += " (SYM.cmp zero-operand) The literal 0 is polymorphic, so `x > 0` type-checks for every dimension: the comparison functions never convert the non-zero operand into the unit of a zero operand (verified zero-aware unit selector), which would be a run-time unit error in an accepted program."
+
+from guard import rule_register  # noqa: E402
+
+for _pid in ("C13", "C17"):
+    PROPERTIES[_pid]["rules"] += [("REGISTER", lambda ctx: rule_register(ctx.lib))]
+    PROPERTIES[_pid]["explanation"] += " (REGISTER) add_other_identifier / add_shadowing_identifier record the name in other_identifiers on every path that returns Ok (MIR must-pass-through), so a parameter or local spelled like a prefixed unit shadows it regardless of which units were imported before."
 
 NOT_APPLICABLE = {
     "C03": "numerical agreement of conversion factors over 500 units is a statement about run-time values; no structural clause is a necessary condition that is not already covered under C04/C11/C12 (static analysis cannot bound the arithmetic)",
